@@ -982,7 +982,7 @@ def run(prop, tier, seed, replay, keep):
             return r
 
         # ---- 3. verdicts of TLC on the specification ----------------------------------------------------------
-        for name in ["verify2"] + (["verify3"] if P["verify3"] else []) + ["live"]:
+        def phase_verify(name):
             r = result(name)
             if r["violated"]:
                 raise MachineryError("the specification itself violates %s in %s (model error, not a finding about the code)"
@@ -990,7 +990,7 @@ def run(prop, tier, seed, replay, keep):
             cov["configs"].append({"name": name, "spec": "LineSpec (every label a step)", "assignments": len(P[name]),
                                    "states": r["distinct"], "transitions": r["generated"], "depth": r["depth"],
                                    "checked": "Termination" if name == "live" else PROPERTY_INVS, "tlc_wall_s": round(r["wall"], 1)})
-        for mname, over, inv in MUTATIONS:
+        def phase_mut(mname, over, inv):
             r = result("mut_" + mname)
             ok = inv in r["violated"]
             cov["mutations"].append({"mutation": mname, "constants": over, "expected_violation": inv, "refuted": ok,
@@ -999,32 +999,34 @@ def run(prop, tier, seed, replay, keep):
                 raise MachineryError("mutation cfg %s was not refuted by TLC (vacuity guard)" % mname)
 
         # ---- 4. shape conformance: one thread, specification vs the real marker stream -------------------------
-        r = result("shape")
-        behs = tlc.json_prints(r["out"], "hist")
-        spec_by_job = {tuple(b["jobs"][0]): b for b in behs}
-        shape_bad = []
-        for s in seq:
-            b = spec_by_job.get(tuple(s["job"]))
-            if b is None:
-                shape_bad.append({"job": s["job"], "what": "no behaviour printed by TLC"})
-                continue
-            spec_steps = [[h[1], h[2], list(h[3]), h[4], h[5], h[6]] for h in b["hist"]]
-            spec_made = [[list(m[0]), m[1]] for m in b["made"][0]]
-            if spec_steps != s["steps"] or spec_made != s["created"] or b["exc"][0] != s["exc"] or b["wraps"][0] != s["wraps"]:
-                k = next((k for k in range(min(len(spec_steps), len(s["steps"]))) if spec_steps[k] != s["steps"][k]), None)
-                shape_bad.append({"job": s["job"], "first_difference_at_step": k,
-                                  "spec": spec_steps[k] if k is not None else [spec_made, b["exc"][0], b["wraps"][0]],
-                                  "code": s["steps"][k] if k is not None else [s["created"], s["exc"], s["wraps"]]})
-        validated += len(seq) - len(shape_bad)
-        cov["configs"].append({"name": "shape", "spec": "MarkerSpec, 1 thread", "jobs": len(seq), "agree": len(seq) - len(shape_bad),
-                               "states": r["distinct"], "transitions": r["generated"]})
-        if shape_bad:
-            # the sequential program of the library does not look like the specification's: code/model drift,
-            # nothing the property decides
-            drift += len(shape_bad)
-            drift_samples.extend(shape_bad[:3])
-        samples.append({"kind": "sequential marker stream = 1-thread behaviour of the specification",
-                        "job": seq[6]["job"], "steps": seq[6]["steps"]})
+        def phase_shape():
+            nonlocal validated, drift
+            r = result("shape")
+            behs = tlc.json_prints(r["out"], "hist")
+            spec_by_job = {tuple(b["jobs"][0]): b for b in behs}
+            shape_bad = []
+            for s in seq:
+                b = spec_by_job.get(tuple(s["job"]))
+                if b is None:
+                    shape_bad.append({"job": s["job"], "what": "no behaviour printed by TLC"})
+                    continue
+                spec_steps = [[h[1], h[2], list(h[3]), h[4], h[5], h[6]] for h in b["hist"]]
+                spec_made = [[list(m[0]), m[1]] for m in b["made"][0]]
+                if spec_steps != s["steps"] or spec_made != s["created"] or b["exc"][0] != s["exc"] or b["wraps"][0] != s["wraps"]:
+                    k = next((k for k in range(min(len(spec_steps), len(s["steps"]))) if spec_steps[k] != s["steps"][k]), None)
+                    shape_bad.append({"job": s["job"], "first_difference_at_step": k,
+                                      "spec": spec_steps[k] if k is not None else [spec_made, b["exc"][0], b["wraps"][0]],
+                                      "code": s["steps"][k] if k is not None else [s["created"], s["exc"], s["wraps"]]})
+            validated += len(seq) - len(shape_bad)
+            cov["configs"].append({"name": "shape", "spec": "MarkerSpec, 1 thread", "jobs": len(seq), "agree": len(seq) - len(shape_bad),
+                                   "states": r["distinct"], "transitions": r["generated"]})
+            if shape_bad:
+                # the sequential program of the library does not look like the specification's: code/model drift,
+                # nothing the property decides
+                drift += len(shape_bad)
+                drift_samples.extend(shape_bad[:3])
+            samples.append({"kind": "sequential marker stream = 1-thread behaviour of the specification",
+                            "job": seq[6]["job"], "steps": seq[6]["steps"]})
 
         # ---- 5. direction A: replay every printed interleaving in real threads ---------------------------------
         def phase_emit(key):
@@ -1113,6 +1115,11 @@ def run(prop, tier, seed, replay, keep):
         import concurrent.futures as cf
         todo = {k: (lambda k=k: phase_emit(k)) for k in ("emit_all", "emit_pre", "emit_pre3", "emit_deep") if k in fut}
         todo["sched"] = phase_sched
+        todo["shape"] = phase_shape
+        for name in ["verify2"] + (["verify3"] if P["verify3"] else []) + ["live"]:
+            todo[name] = (lambda name=name: phase_verify(name))
+        for mname, over, inv in MUTATIONS:
+            todo["mut_" + mname] = (lambda a=mname, b=over, c=inv: phase_mut(a, b, c))
         while todo:
             ready = [k for k in todo if fut[k].done()]
             if not ready:
